@@ -4,10 +4,53 @@ NOTES = ('All checks explore the real implementation in /repo (working tree) exh
          'models (vt/ref). VERIF_SEED only rotates non-boundary members of value alphabets; structures are enumerated completely for every seed. '
          'Genuine defects found are fixed in /repo by "fix:" commits or listed in known_findings.json.')
 ENGINES = [
+    {'name': 'E-enum', 'path': 'vt/astgen.py, vt/par.py, vt/ref/', 'serves_properties': ['C01', 'C02', 'C03', 'C11'],
+     'kind_free_text': 'bounded-exhaustive program x data enumerator: all well-typed statements of bounded shape over the live registries x all tables/ledgers of bounded size over a value alphabet, executed on the real implementation and compared with a reference interpreter'},
     {'name': 'E-bfs', 'path': 'vt/explore/bfs.py', 'serves_properties': ['C10'],
      'kind_free_text': 'explicit-state breadth-first search over operation histories on the product (real object, reference model) with canonical-state deduplication and closure detection'},
 ]
 CHECKS = {
+    'C01': {
+        'engine': 'E-enum',
+        'technique': 'bounded-exhaustive enumeration of typed expression trees x full operand-value product tables against a reference three-valued evaluator',
+        'design_ref': 'DESIGN.md section 4, C01',
+        'text': 'Every overload of every operator in the live registry, BETWEEN, IN/NOT IN, AND/OR (2-3 args), NOT, IS [NOT] NULL, COALESCE per type and 45 total scalar '
+                'function signatures, at depth 1 and at depth 2 with every depth-1 expression as child of every slot of its type (thorough: all slots at once and depth 3 over '
+                'representatives of each NULL-behaviour class), each evaluated as target and as WHERE on the table holding the FULL cartesian product of the alphabets of the columns '
+                'it reads (every NULL position, zero divisors, ties), plus empty / one-row / reversed tables and FROM conditions on the postings table; every cell compared by (type, value).',
+        'note': 'Trusted: vt/ref/expr.py (written from the property text), CPython decimal/datetime/re, dateutil for interval values. Rows where the reference itself is undefined because of '
+                'a data error (date out of range, Decimal overflow) are dropped from the table. Depth > 3 and values outside the alphabets are not covered.',
+    },
+    'C02': {
+        'engine': 'E-enum',
+        'technique': 'bounded-exhaustive enumeration of all small tables x grouping/aggregate statement shapes against a reference SELECT interpreter',
+        'design_ref': 'DESIGN.md section 4, C02',
+        'text': 'ALL row sequences of length <= 3 (quick) / <= 4 (thorough) over a 9-letter (k, v) row alphabet with NULLs, for value types int, Decimal, str, date, bool, and over an 18-letter '
+                '(k, m, v) alphabet for two-key statements, x 14 one-key and 9 two-key grouping forms (by column, alias, index, hidden, implicit, none, key expressions, repeated keys, key '
+                'order) x aggregate lists (all 18 at once and each alone, arithmetic over aggregates) x WHERE x HAVING menus; group-wise count/sum vs ungrouped totals differential; and every '
+                'ordered pair of hashable columns of every Beancount-backed table kind (hidden keys, alias + hidden key, uncovered target rejected).',
+        'note': 'Trusted: vt/ref/select.py + vt/ref/expr.py. sum(bool) compared by numeric value. The table-kind sweep partitions the rows returned by the non-aggregate SELECT c1, c2.',
+    },
+    'C03': {
+        'engine': 'E-enum',
+        'technique': 'bounded-exhaustive enumeration of all small tables x all ORDER BY key lists/direction vectors/forms x DISTINCT x LIMIT against a comparator-sort reference',
+        'design_ref': 'DESIGN.md section 4, C03',
+        'text': 'ALL tables of <= 3 (quick) / <= 4 (thorough) rows over a 9-letter alphabet with NULLs and ties (row id makes stability observable) x ALL lists of 1..3 distinct keys out of 4 '
+                'candidates with every ASC/DESC vector (thorough adds all 4-key lists) x key forms (position, alias, repeated expression, hidden expression, mixed) x DISTINCT x LIMIT '
+                '{none,0,1,2,>size}; aggregate queries ordered by group keys / aggregates / hidden aggregates; every ordered pair of orderable columns of every Beancount table kind with a hidden '
+                'ORDER BY key; IN-subquery targets combined with a different IN-subquery ordering key.',
+        'note': 'Trusted: vt/ref/select.py (functools.cmp_to_key comparator, sorted() stability). Unorderable keys and unhashable rows are outside the property.',
+    },
+    'C11': {
+        'engine': 'E-enum',
+        'technique': 'bounded-exhaustive enumeration of all ledgers of <= n directives from a 27-snippet alphabet x every table x every column against a direct traversal of the loaded entries',
+        'design_ref': 'DESIGN.md section 4, C11',
+        'text': 'Every ledger with <= 3 (quick: 3,304 ledgers) / <= 4 (thorough: 20,854) body directives over an alphabet covering every directive type, costs, prices, tags, links, metadata of '
+                'all nine value types on entries and postings, pads (also in the legacy meta-less shape) and plugin-generated meta-less postings, x 10 tables x every column alone, all together and '
+                '`*`, x the metadata / open / close functions for present and absent keys, x structured attribute paths; every cell compared with a reference traversal (vt/ref/ledger.py).',
+        'note': 'Trusted: beancount loader and data model, vt/ref/ledger.py. Weakest readings: any_meta with explicit NULL, cost_label without cost (NULL or empty string), posting vs transaction '
+                'line numbers, accounts/commodities rows matched by key.',
+    },
     'C10': {
         'engine': 'E-bfs',
         'technique': 'explicit-state BFS over cursor call histories on the product (real Cursor, reference model) to closure',
